@@ -418,7 +418,7 @@ def wsdlLines (s : SchemaSet) : List String :=
       match w.messages.find? (fun m => m.name == d.message) with
       | none => []
       | some m =>
-        let env := toPascalCase op.name ++ dir ++ "Envelope"
+        let env := typeName op.name ++ dir ++ "Envelope"
         (match bodyPart m d with
          | some p => ["ENVBODY\t" ++ env ++ "\t" ++ partLeaf s p ++ "\trename=" ++ p.elemName ++ "\tns=" ++ uriOf s p.elemNs]
          | none => []) ++
@@ -428,8 +428,8 @@ def wsdlLines (s : SchemaSet) : List String :=
         ["ENVELOPE\t" ++ env ++ "\theader=" ++ (if d.headers.isEmpty then "0" else "1")]
     w.ops.flatMap (fun op =>
       envelope op "Input" op.input ++ (match op.output with | some d => envelope op "Output" d | none => []) ++
-      ["METHOD\t" ++ typeName w.service ++ "\t" ++ fieldName op.name ++ "\targ=" ++ toPascalCase op.name ++ "InputEnvelope\tret=" ++
-        (match op.output with | some _ => toPascalCase op.name ++ "OutputEnvelope" | none => "()")]) ++
+      ["METHOD\t" ++ typeName w.service ++ "\t" ++ fieldName op.name ++ "\targ=" ++ typeName op.name ++ "InputEnvelope\tret=" ++
+        (match op.output with | some _ => typeName op.name ++ "OutputEnvelope" | none => "()")]) ++
     ["SERVICE\t" ++ typeName w.service ++ "\tlocation=" ++ w.address.2]
 
 end Ref
